@@ -9,6 +9,7 @@ R18.2 chain formatting: the `individual` coordinate is the likelihood's
 R18.3 parameter maps are applied as one simultaneous substitution.
 """
 import ast
+import re
 
 from ..loader import U, norm_stmt, AnalysisError
 
@@ -21,6 +22,56 @@ def _defs(fn, name):
     return [a for a in ast.walk(fn) if isinstance(a, ast.Assign)
             and any(isinstance(t, ast.Name) and t.id == name
                     for t in a.targets)]
+
+
+def _returned_name(fn, default):
+    """Name of the local that the function returns (last `return <name>`)."""
+    rets = [r for r in ast.walk(fn) if isinstance(r, ast.Return)
+            and isinstance(r.value, ast.Name)]
+    return rets[-1].value.id if rets else default
+
+
+def _resolved(fn, expr, depth=0):
+    """Text of expr with single-assignment locals replaced by their
+    definitions (so that rules compare what a value *is*, not what the
+    local holding it is called)."""
+    import copy as _copy
+    if expr is None:
+        return ''
+    params = {a.arg for a in fn.args.args + fn.args.kwonlyargs}
+    defs = {}
+    for a in ast.walk(fn):
+        if isinstance(a, ast.Assign) and len(a.targets) == 1 and isinstance(
+                a.targets[0], ast.Name):
+            defs.setdefault(a.targets[0].id, []).append(a.value)
+        elif isinstance(a, (ast.AugAssign, ast.For, ast.comprehension)):
+            t = a.target
+            for x in ast.walk(t):
+                if isinstance(x, ast.Name):
+                    defs.setdefault(x.id, []).extend([None, None])
+
+    class R(ast.NodeTransformer):
+        def __init__(self, d):
+            self.d = d
+
+        def visit_Name(self, n):
+            if n.id in params or self.d > 3:
+                return n
+            vs = defs.get(n.id, [])
+            if len(vs) == 1 and vs[0] is not None and isinstance(
+                    n.ctx, ast.Load):
+                return R(self.d + 1).visit(_copy.deepcopy(vs[0]))
+            return n
+    return U(R(depth).visit(_copy.deepcopy(expr))).replace(' ', '')
+
+
+def _bound_from(fn, needle, default):
+    """Name of the local assigned from an expression containing `needle`."""
+    for a in ast.walk(fn):
+        if isinstance(a, ast.Assign) and len(a.targets) == 1 and isinstance(
+                a.targets[0], ast.Name) and needle in U(a.value):
+            return a.targets[0].id
+    return default
 
 
 def _column_space(ctx, rule, repo, cls, fn, construct):
@@ -79,10 +130,11 @@ def r18_1(ctx, repo):
         fn = repo.method(cls, 'sample_initial_parameters')
         construct = '%s.sample_initial_parameters' % cls
         _column_space(ctx, rule, repo, cls, fn, construct)
+        IP = _returned_name(fn, 'initial_params')
         # the prior sample fills one block of every row
         tops = [a for a in ast.walk(fn) if isinstance(a, ast.Assign)
                 and isinstance(a.targets[0], ast.Subscript)
-                and U(a.targets[0].value) == 'initial_params'
+                and U(a.targets[0].value) == IP
                 and '_log_prior.sample' in U(a.value)]
         pops = [c for c in ast.walk(fn) if isinstance(c, ast.Call)
                 and isinstance(c.func, ast.Attribute)
@@ -97,6 +149,7 @@ def r18_1(ctx, repo):
         sl = top.targets[0].slice
         top_slice = U(sl.elts[1]) if isinstance(sl, ast.Tuple) and len(
             sl.elts) == 2 else None
+        top_slice_r = _resolved(fn, sl.elts[1]) if top_slice else None
         where = repo.loc(top, cls, fn.name)
         if 'n_samples' in U(top.value) and top_slice:
             ctx.ok(rule, where, construct,
@@ -134,35 +187,36 @@ def r18_1(ctx, repo):
             for tgt, it in iters:
                 # for k in range(n_samples): initial_params[k, SL]
                 if isinstance(p, ast.Subscript) and U(p.value) == \
-                        'initial_params' and isinstance(
+                        IP and isinstance(
                         p.slice, ast.Tuple) and len(p.slice.elts) == 2 \
                         and U(p.slice.elts[0]) == tgt and isinstance(
                         it, ast.Call) and U(it.func) == 'range' \
                         and norm(it.args[-1] if len(it.args) < 3 else None) \
                         == 'n_samples':
-                    return tgt, norm(p.slice.elts[1])
+                    return tgt, _resolved(fn, p.slice.elts[1])
                 # for row in initial_params[:, SL]: row
                 if isinstance(p, ast.Name) and p.id == tgt and isinstance(
                         it, ast.Subscript) and U(it.value) == \
-                        'initial_params' and isinstance(
+                        IP and isinstance(
                         it.slice, ast.Tuple) and len(it.slice.elts) == 2 \
                         and norm(it.slice.elts[0]) == ':':
-                    return tgt, norm(it.slice.elts[1])
+                    return tgt, _resolved(fn, it.slice.elts[1])
             return None
         rb = row_block(p)
         ptxt = norm(p)
         row = rb[0] if rb else (iters[0][0] if iters else None)
         if cls == 'PopulationFilterLogPosterior':
-            want_sl = ':n_pop'
+            want_sl = ':self._population_model.n_parameters()'
         else:
-            want_sl = (top_slice or '').replace(' ', '')
-        want = 'initial_params[%s,%s]' % (row, want_sl)
+            want_sl = top_slice_r or ''
+
+        want = '%s[%s,%s]' % (IP, row, want_sl)
         if rb and rb[1] == want_sl:
             ctx.ok(rule, wherec, construct,
                    'individual-level entries of initial point k are drawn '
                    'from the population model at the population values of '
                    'the same point k')
-        elif 'initial_params' not in ptxt and not rb:
+        elif IP not in ptxt and not rb:
             ctx.error(rule, '%s: population values `%s` not traced to the '
                       'initial points' % (construct, ptxt[:50]))
         else:
@@ -174,9 +228,9 @@ def r18_1(ctx, repo):
                 'population density at the initial point can be -inf)' % (
                     U(p) if p is not None else '?', row, want))
         ns = kw.get('n_samples')
-        want_n = 'n_ids' if cls == 'HierarchicalLogPosterior' \
-            else 'self._n_samples'
-        if ns is not None and U(ns) == want_n:
+        want_n = 'self._log_likelihood.n_log_likelihoods()' \
+            if cls == 'HierarchicalLogPosterior' else 'self._n_samples'
+        if ns is not None and _resolved(fn, ns) == want_n:
             ctx.ok(rule, wherec, construct,
                    'one individual-level draw per modelled individual '
                    '(n_samples=%s)' % want_n)
@@ -187,7 +241,8 @@ def r18_1(ctx, repo):
                               U(ns) if ns is not None else 'default',
                               want_n))
         cov = kw.get('covariates')
-        if cov is not None and U(cov) in ('covariates', 'self._covariates'):
+        if cov is not None and _resolved(fn, cov) in (
+                'self._log_likelihood._covariates', 'self._covariates'):
             ctx.ok(rule, wherec, construct,
                    'the likelihood\'s covariates are used for the draw')
         else:
@@ -197,13 +252,24 @@ def r18_1(ctx, repo):
         # placement of the bottom block
         bots = [a for a in ast.walk(fn) if isinstance(a, ast.Assign)
                 and isinstance(a.targets[0], ast.Subscript)
-                and U(a.targets[0].value) == 'initial_params'
-                and 'bottom_parameters' in U(a.value)]
+                and U(a.targets[0].value) == IP
+                and '_log_prior' not in _resolved(fn, a.value)
+                and 'population_model' in _resolved(fn, a.value)
+                + U(a.value)]
         if len(bots) == 1:
-            bsl = U(bots[0].targets[0].slice).replace(' ', '')
+            bsl = _resolved(fn, bots[0].targets[0].slice)
+            nb = _resolved(fn, ast.Name(id=_bound_from(
+                fn, 'n_parameters(', 'n_bottom'), ctx=ast.Load()))
             want_b = (':,:n_bottom' if cls == 'HierarchicalLogPosterior'
                       else ':,self._n_top:self._end_bottom')
-            if bsl.strip('()') == want_b:
+            if cls == 'HierarchicalLogPosterior':
+                # [:, :<number of individual-level parameters>]
+                m_ = re.match(r'^\(?:,:(.+?)\)?$', bsl)
+                ok_b = bool(m_) and ('n_parameters(' in m_.group(1)
+                                     or 'n_bottom' in m_.group(1))
+            else:
+                ok_b = bsl.strip('()') == want_b
+            if ok_b:
                 ctx.ok(rule, repo.loc(bots[0], cls, fn.name), construct,
                        'individual-level block is written to [%s]' % want_b)
             else:
@@ -284,6 +350,7 @@ def r18_2(ctx, repo):
     # bottom columns are selected by a name mask over the full name list:
     # the data of every DataArray with an `individual` dimension is
     # chains[:, :, <names == loop parameter>]
+    NM = _bound_from(fn, '.get_parameter_names(', 'names')
     arrays = [c for c in ast.walk(fn) if isinstance(c, ast.Call)
               and U(c.func).endswith('DataArray') and any(
                   k.arg == 'dims' and 'individual' in U(k.value)
@@ -311,8 +378,8 @@ def r18_2(ctx, repo):
         where = repo.loc(c, cls, fn.name)
         if isinstance(sel, ast.Compare) and len(sel.ops) == 1 and isinstance(
                 sel.ops[0], ast.Eq) and {U(sel.left),
-                                         U(sel.comparators[0])} & {'names'} \
-                and ({U(sel.left), U(sel.comparators[0])} - {'names'}) \
+                                         U(sel.comparators[0])} & {NM} \
+                and ({U(sel.left), U(sel.comparators[0])} - {NM}) \
                 <= loopvars:
             ctx.ok(rule, where, construct,
                    'individual-level columns are selected by name over the '
@@ -374,9 +441,10 @@ def r18_3(ctx, repo):
                              s.targets[0], ast.Subscript)
                          and 'mapped' in U(s.value))
                      for s in ast.walk(l))]
+        MN = _bound_from(fn, '.get_parameter_names(', 'model_names')
         stores = [s for s in ast.walk(fn) if isinstance(s, ast.Assign)
                   and isinstance(s.targets[0], ast.Subscript)
-                  and U(s.targets[0].value) == 'model_names']
+                  and U(s.targets[0].value) == MN]
         if not stores:
             ctx.error(rule, '%s: renaming store not found' % construct)
             continue
@@ -390,7 +458,7 @@ def r18_3(ctx, repo):
             cur = getattr(cur, '_parent', None)
         where = repo.loc(st, cls, fn.name)
         it = U(loop.iter) if loop is not None else ''
-        over_names = 'model_names' in it
+        over_names = MN in it
         uses_index_search = '.index(' in U(st.targets[0])
         if over_names and not uses_index_search:
             ctx.ok(rule, where, construct,
